@@ -268,13 +268,10 @@ class error_999_visitor(pyx12.error_visitor.error_visitor):
         """
         if err_st is None:
             raise EngineError('Cannot create AK2 : err_st is None')
-        if err_st.trn_set_id is None:
-            raise EngineError('Cannot create AK2: err_st.trn_set_id was not set')
-        if err_st.trn_set_control_num is None:
-            raise EngineError('Cannot create AK2: err_st.trn_set_control_num was not set')
         seg_data = pyx12.segment.Segment('AK2', '~', '*', ':')
-        seg_data.set('01', self._clean(err_st.trn_set_id))
-        seg_data.set('02', self._clean(err_st.trn_set_control_num).strip())
+        # ST01/ST02 may be missing in the source; the AK2 is still written
+        seg_data.set('01', self._clean(err_st.trn_set_id) or '')
+        seg_data.set('02', (self._clean(err_st.trn_set_control_num) or '').strip())
         if err_st.vriic is not None:
             # AK203 is situational: the source ST need not carry an ST03
             seg_data.set('03', self._clean(err_st.vriic))
